@@ -6,11 +6,11 @@ CLAIMED = {
  "C01": ("model_checking", "TLC model checking (Solver.tla, all schedules) + TLC trace validation of real runs (SolverTrace.tla) + Denote.tla oracle",
          "TLC checks NoSilentSuccess/FailureIsNamed/AbortIsDenoted on every schedule, initial file and user behaviour of generated form programs; every real execution (generated programs, shipped forms, the repository's own tests) is replayed event by event through SolverTrace.tla, which recomputes the verdict and diagnostics from the observed attempt outcomes and must agree with solve()'s return value and getters; terminal results are judged against the schedule-free denotation.", "6/C01"),
  "C03": ("model_checking", "TLC model checking (FixedPoint, WriteOnce) + trace validation: every logged read must equal the specification's store",
-         "TLC checks FixedPoint/WriteOnce/InputsOnlyAdded on all schedules of generated programs; in every validated real trace each read of a storing attempt must equal the value the specification holds at that moment and (programs) the whole step must equal AttemptProg; stored values are re-evaluated on the final solution by Judge.tla.", "6/C03"),
+         "TLC checks FixedPoint/WriteOnce/InputsOnlyAdded on all schedules of generated programs; in every validated real trace each read of a storing attempt must equal the value the specification holds at that moment and (programs) the whole step must equal AttemptProg; stored values are re-evaluated on the final solution by Judge.tla; on the shipped forms every stored line of every explored return is evaluated once more on the final state (FixedPoint.tla); runs with a [DEFAULT] section in the input file are judged for the fixed point only.", "6/C03"),
  "C04": ("model_checking", "TLC model checking (ClosureSound/ClosureComplete/EqualsDenotation) + trace validation of forms/lines added",
-         "TLC checks that the terminal state is exactly the least demand closure (Denote.tla) for all schedules; real runs: forms added per attempt, field map, solving set and solution() keys must equal the specification's; results judged against the closure.", "6/C04"),
+         "TLC checks that the terminal state is exactly the least demand closure (Denote.tla) for all schedules; real runs: forms added per attempt, field map, solving set and solution() keys must equal the specification's; results judged against the closure; requests also go through the real command line (argument parser) and the written solution is compared with the library solve of the same request.", "6/C04"),
  "C05": ("model_checking", "TLC model checking with a nondeterministic scheduler (EqualsDenotation) + real runs under permuted schedules (guarded hook), request orders and file/prompt splits compared with each other",
-         "The design model makes every choice point nondeterministic and TLC shows every terminal state equals the schedule-free denotation; the real solver is run under natural, reversed and random schedules through the guarded hook, with shuffled request order and file/prompt splits, every run validated against SolverTrace.tla and all runs with equal inputs required to return identical results.", "6/C05"),
+         "The design model makes every choice point nondeterministic and TLC shows every terminal state equals the schedule-free denotation; the real solver is run under natural, reversed and random schedules through the guarded hook, with shuffled request order and file/prompt splits, every run validated against SolverTrace.tla and all runs with equal inputs required to return identical results; explored real returns are re-solved from the written-back file, from a file holding the answers as typed, with reversed requests and with instanced forms also requested by name; input files with a repeated key must give one outcome in either order.", "6/C05"),
  "C06": ("model_checking", "TLC model checking incl. liveness (<>Terminal under WF) and work-bound ghosts + Tracker.tla object model (all histories; bounded-list variant explored completely; Apalache inductive invariant in the thorough tier) + trace validation of drains",
          "TLC checks termination without state constraint, AskAtMostOnce, EvalBound, NoLostWaiter, NoEarlyRelease on generated programs incl. cyclic ones; each real drain must release exactly the waiters the specification computes (multiset), work counters of real runs judged by Judge.tla; the tracer bounds events so a livelock yields a finite rejected trace. The real DependencyTracker's reachable transitions are validated by meaning (bag of waiters per dependency, releasable set). The natural order (NatSort.tla) is compared with sort_keys for the record only.", "6/C06"),
  "C13": ("model_checking", "TLC model checking (AskOnlyDemandedMissing, NoAskAfterRefusal, UnreadNotRequired) + trace validation of every prompt + solve/write-back/solve histories through the real command",
